@@ -454,3 +454,26 @@ impl SharedInv for Writer { closed spec fn shared_inv(&self, w: &World) -> bool 
 spec fn hmodel(h: &Handle, w: &World) -> Map<Bytes, Bytes> { model(h.writer@.ctx.keydir@, w) }
 impl KvView for Handle { closed spec fn kv_map(&self, w: &World) -> Map<Bytes, Bytes> { hmodel(self, w) } }
 impl SharedInv for Reader { closed spec fn shared_inv(&self, w: &World) -> bool { world_wf(w) && index_ok(self.ctx.keydir@, w) } }
+
+// ---- C18 (decision logic of the background merge): when does the configuration ask for a merge
+spec fn trigger_hit(st: LogStatistics, t: MergeTriggers) -> bool {
+    st.dead_bytes > t.dead_bytes || f64_gt(log::spec_fragmentation(st), t.fragmentation)
+}
+spec fn any_trigger(stats: Map<u64, LogStatistics>, t: MergeTriggers) -> bool {
+    exists |f: u64| stats.contains_key(f) && #[trigger] trigger_hit(stats[f], t)
+}
+/// ghost checkpoint after the select! of the merge task (sleep arm): one more wake-up, after a sleep inside [interval - jitter, interval + jitter]
+proof fn bg_merge_sleep(b0: BgLog, b: BgLog, interval: int, jitter: int)
+    requires b.ticks == b0.ticks + 1 && b.blocking_calls == b0.blocking_calls
+        && interval - jitter <= b.last_sleep_ms <= interval + jitter && 0 <= jitter <= interval,   //@[C18.merge_task.sleep_within_interval_and_jitter]
+{}
+/// ghost checkpoint at the end of a turn of the merge task: a merge was handed to the blocking pool only if the configuration asks
+/// for one now, and with policy `always` exactly if it does
+proof fn bg_merge_turn(b0: BgLog, b: BgLog, always: bool, asked: bool)
+    requires b.ticks == b0.ticks + 1 && b0.blocking_calls <= b.blocking_calls <= b0.blocking_calls + 1
+        && (b.blocking_calls == b0.blocking_calls + 1 ==> asked) && (always && asked ==> b.blocking_calls == b0.blocking_calls + 1),   //@[C18.merge_task.merge_iff_asked]
+{}
+/// ghost checkpoint after the select! of the sync task (sleep arm): the sleep is the configured interval
+proof fn bg_sync_sleep(b0: BgLog, b: BgLog, d: int)
+    requires b.ticks == b0.ticks + 1 && b.blocking_calls == b0.blocking_calls && b.last_sleep_ms == d,   //@[C18.sync_task.sleeps_the_configured_interval]
+{}
